@@ -464,7 +464,8 @@ class Program:
                 best = fi
         return best
 
-    def opaque_context(self, fi: "FuncInfo") -> list[str]:
+    def opaque_context(self, fi: "FuncInfo",
+                       line: int | None = None) -> list[str]:
         """Reasons why shape rules may misjudge fi: it still calls package
         helpers that are outside the rule inventory and could not be inlined
         (generators, closures, *args, non-tail returns), calls through a
@@ -569,6 +570,19 @@ class Program:
                                f"through the local `{f.id}`")
                 elif isinstance(f, ast.Name) and (
                         f.id in loopvars or "__inl_" in f.id):
+                    # a callable handed around as a value blurs the loop /
+                    # statement it is used in, not the rest of the function
+                    if line is not None:
+                        reg = n
+                        for a_ in ancestors(n):
+                            if a_ is fi.node:
+                                break
+                            if isinstance(a_, (ast.For, ast.While)):
+                                reg = a_
+                        lo = getattr(reg, "lineno", None)
+                        hi = getattr(reg, "end_lineno", lo)
+                        if lo is not None and not (lo <= line <= (hi or lo)):
+                            continue
                     out.append(f"calls through the local `{f.id}` (a "
                                "callable handed around as a value)")
             elif isinstance(n, ast.Name) and isinstance(n.ctx, ast.Load):
